@@ -655,6 +655,8 @@ class Evaluator:
             return    # func.__name__ = ... bookkeeping
         if isinstance(obj, Num) and name == "imaginary":
             return
+        if isinstance(obj, BoundBuiltin) and obj.name == "flags" and name == "writeable":
+            return    # write-protection flag: no effect on values
         self.unsupported(f"attribute store .{name} on {obj!r}", node, fr)
 
     def setitem(self, obj, idx, v, fr, node=None):
